@@ -85,8 +85,8 @@ def sk():
                 return rec
 
             def __call__(self, src_recarray, src_params_recarray):
-                y = src_recarray['Y']
-                return ((y if getattr(self, 'alias', False) else np.array(y, dtype=np.float64)), {})
+                y = src_recarray['Y'] * src_params_recarray['eta']
+                return (y, {})
 
         class NoBuilder(DetSigYieldBuilder):
             def __init__(self, **kw):
@@ -142,6 +142,40 @@ def mk_tdm(S, n_events, n_sel, vals):
     return tdm
 
 
+def eta_of(k):
+    """fixed per-source parameter `eta` (by global source position, as the ParameterModelMapper hands it
+    out in src_params_recarray); powers of two, so that (Y / eta) * eta == Y exactly"""
+    return 2.0 ** ((k % 5) - 2)
+
+
+def eta_vecs(case):
+    out, k = [], 0
+    for W in case['groups']:
+        out.append(np.array([eta_of(k + i) for i in range(len(W))], dtype=np.float64))
+        k += len(W)
+    return out
+
+
+def stub_table(case, j, g):
+    """what the stub detector of cell (j, g) stores: the prescribed yields divided by the sources' eta
+    (the stub multiplies with the eta values it finds in ITS slice of src_params_recarray)"""
+    y = np.array(case['Y'][j][g], dtype=np.float64)
+    e = eta_vecs(case)[g]
+    return y / e if len(y) == len(e) else y
+
+
+def effective_Y(case, j, g):
+    """the yields the service receives from the stub of cell (j, g)"""
+    y = case['Y'][j][g]
+    e = eta_vecs(case)[g]
+    if len(y) == len(e):
+        return list(y)
+    try:
+        return [float(x) for x in np.array(y, dtype=np.float64) * e]
+    except ValueError:
+        return list(y)
+
+
 class Stack:
     """The real objects for one configuration.  `observe()` drives them; `apply(case2)` turns the
     SAME long-lived objects into another configuration of the same shape (J, group sizes, number of
@@ -164,11 +198,17 @@ class Stack:
                 detsigyield_builders=S.NoBuilder(cfg=S.cfg), sig_gen_method=None))
         self.shg_mgr = S.SourceHypoGroupManager(shgs)
         self.pmm = S.ParameterModelMapper(models=allsrc)
+        self.pmm.map_param(S.Parameter('gamma', 2.0, 1.0, 4.0))       # floating, declared before ns
+        for k, src in enumerate(allsrc):
+            self.pmm.map_param(S.Parameter(f'eta{k}', eta_of(k)), models=[src], model_param_names='eta')
         self.pmm.map_param(S.Parameter('ns', 1.0, 0, 1e9))
+        self.ns_pidx = self.pmm.get_gflp_idx('ns')
+        self.npar = self.pmm.n_global_floating_params
+        self.notified_ok = True
         self.arr = np.empty((J, len(groups)), dtype=object)
         for j in range(J):
             for g in range(len(groups)):
-                self.arr[j, g] = S.TableYield(case['Y'][j][g])
+                self.arr[j, g] = S.TableYield(stub_table(case, j, g))
                 self.arr[j, g].alias = alias
         svc = S.Mock(spec_set=['__class__', 'arr', 'shg_mgr', 'n_datasets', 'n_shgs'])
         svc.__class__ = S.DetSigYieldService
@@ -199,10 +239,17 @@ class Stack:
             except (ValueError, IndexError) as ex:
                 self.m_err = ('Err', exc_name(ex))
 
+    def fit(self, ns):
+        """fitparam_values as a float64 ndarray: gamma at its index, ns at ns_pidx"""
+        x = np.full((self.npar,), 2.0, dtype=np.float64)
+        x[self.ns_pidx] = ns
+        return x
+
     def apply(self, case2, p=None):
         """same shape required; p = permutation of the flattened sources (new i is old p[i]) or None"""
         c0 = self.case
-        assert case2['J'] == c0['J'] and [len(g) for g in case2['groups']] == [len(g) for g in c0['groups']]
+        assert (case2['J'] == c0['J'] and len(case2['groups']) == len(c0['groups'])
+                and sum(len(g) for g in case2['groups']) == sum(len(g) for g in c0['groups']))
         shgl = self.shg_mgr.shg_list
         objs = [src for shg in shgl for src in shg.source_list]
         if p is not None:
@@ -215,7 +262,7 @@ class Stack:
             k += len(W)
         for j in range(case2['J']):
             for g in range(len(case2['groups'])):
-                self.arr[j, g]._t = np.array(case2['Y'][j][g], dtype=np.float64)
+                self.arr[j, g]._t = stub_table(case2, j, g)
         if case2.get('ds') is not None:
             assert len(case2['ds']) == len(self.tdms)
             for d, tdm, stub, sw in zip(case2['ds'], self.tdms, self.stubs, self.sws):
@@ -229,7 +276,11 @@ class Stack:
         self.case = case2
         # the public notification path
         if self.m is not None:
+            before = [t.change_shg_mgr.call_count for t in self.tdms]
             self.m.change_shg_mgr(self.shg_mgr)
+            # every single-dataset llh ratio function (and through it its TrialDataManager) is notified
+            self.notified_ok = all(t.change_shg_mgr.call_count == b + 1 for t, b in zip(self.tdms, before)) \
+                and all(ll.shg_mgr is self.shg_mgr for ll in self.lls)
             self.m.initialize_for_new_trial()
         else:
             self.ws.change_shg_mgr(self.shg_mgr)
@@ -242,21 +293,33 @@ class Stack:
         J = case['J']
         out = {'weights': None, 'stack': [], 'multi': None, 'single': []}
         ns = float(case.get('ns', 0.0))
-        fit = np.array([ns], dtype=np.float64)
+        fit = self.fit(ns)
         spr = self.pmm.create_src_params_recarray(fit)
         ws, fs = self.ws, self.fs
+        ds = case.get('ds')
         with np.errstate(all='ignore'), warnings.catch_warnings():
             warnings.simplefilter('ignore')
+            # MultiDatasetTCLLHRatio.evaluate itself has to bring the services up to date: when an llh
+            # ratio function exists it is called FIRST and the services are only read afterwards
+            if ds is not None and self.m is not None:
+                try:
+                    (val, grads) = self.m.evaluate(fit)
+                    out['multi'] = ('Ok', float(val))
+                    assert grads.shape == (self.npar,)
+                except (ValueError, IndexError) as ex:
+                    out['multi'] = ('Err', exc_name(ex))
+            elif ds is not None:
+                out['multi'] = self.m_err
             try:
-                ws.calculate(spr)
-                fs.calculate()
+                if out['multi'] is None or out['multi'][0] != 'Ok':
+                    ws.calculate(spr)
+                    fs.calculate()
                 a_jk = ws.get_weights()[0]
                 f = fs.get_weights()[0]
                 assert a_jk.shape == (J, self.shg_mgr.n_sources) and f.shape == (J,), (a_jk.shape, f.shape)
                 out['weights'] = ('Ok', [[float(x) for x in r] for r in a_jk], [float(x) for x in f])
             except (ValueError, IndexError, TypeError, KeyError) as ex:
                 out['weights'] = ('Err', exc_name(ex))
-            ds = case.get('ds')
             if ds is None:
                 return out
             for d, tdm, sw in zip(ds, self.tdms, self.sws):
@@ -269,21 +332,12 @@ class Stack:
                         out['stack'].append(('Err', exc_name(ex)))
                 else:
                     out['stack'].append(None)
-            if self.m is None:
-                out['multi'] = self.m_err
-                return out
-            try:
-                (val, grads) = self.m.evaluate(fit)
-                out['multi'] = ('Ok', float(val))
-                assert grads.shape == (1,)
-            except (ValueError, IndexError) as ex:
-                out['multi'] = ('Err', exc_name(ex))
             # the single-dataset functions on their own, at ns * f_j  (additivity, implementation level)
-            if out['multi'][0] == 'Ok':
+            if out['multi'] is not None and out['multi'][0] == 'Ok':
                 f = fs.get_weights()[0]
                 for j, ll in enumerate(self.lls):
                     try:
-                        out['single'].append(float(ll.evaluate(np.array([ns * f[j]]))[0]))
+                        out['single'].append(float(ll.evaluate(self.fit(ns * f[j]))[0]))
                     except (ValueError, IndexError):
                         out['single'].append(None)
         return out
@@ -303,7 +357,7 @@ def group_tokens(case):
         t.append(str(len(W)))
         t += [fhex(w) for w in W]
         for j in range(J):
-            y = case['Y'][j][g]
+            y = effective_Y(case, j, g)
             t.append(str(len(y)))
             t += [fhex(v) for v in y]
     return t
@@ -474,13 +528,13 @@ def gen_table(ctx, rng, J=None, K=None, regime=None):
     G = rng.randint(1, min(3, K))
     cuts = sorted(rng.sample(range(1, K), G - 1)) if G > 1 else []
     sizes = [b - a for a, b in zip([0] + cuts, cuts + [K])]
-    regime = regime or rng.choice(['plain', 'plain', 'zeros', 'zero-row', 'zero-col', 'wide', 'equal', 'tiny-huge'])
+    regime = regime or rng.choice(['plain', 'plain', 'zeros', 'zero-row', 'zero-col', 'wide', 'equal', 'tiny-huge', 'ultra-small'])
     ctx.count('table:' + regime)
     ctx.count(f'J={J}')
     ctx.count(f'K={K}')
     ctx.count(f'G={G}')
     span = {'plain': (-1, 1), 'zeros': (-2, 2), 'zero-row': (-1, 1), 'zero-col': (-1, 1),
-            'wide': (-6, 6), 'equal': (0, 0), 'tiny-huge': (-6, 6)}[regime]
+            'wide': (-6, 6), 'equal': (0, 0), 'tiny-huge': (-6, 6), 'ultra-small': (-16, -13)}[regime]
     W = [logu(rng, *span) if regime != 'equal' else 1.0 for _ in range(K)]
     Yt = [[logu(rng, *span) for _ in range(K)] for _ in range(J)]
     if regime == 'zeros':
@@ -684,7 +738,7 @@ def predicates_weights(ctx, case, impl):
     if not abs(math.fsum(f) - 1.0) <= 8 * EPS:
         ctx.violation(P_FJ, 'sum-not-one', f'sum f_j = {math.fsum(f)!r}', case=case, impl=f, predicate='|sum_j f_j - 1| <= 8 eps')
     for j in range(case['J']):
-        if not close(f[j], float(fe[j]), 64 * EPS):
+        if not close(f[j], float(fe[j]), 64 * EPS * float(fe[j]) + 5e-324):
             ctx.violation(P_FJ, 'differs-from-definition', f'f[{j}] = {f[j]!r}, exact {float(fe[j])!r}', case=case, impl=f,
                           predicate='f_j = sum_k a_jk / sum_jk a_jk')
     fm = f_manual_float(a)
@@ -734,14 +788,20 @@ def predicates_multi(ctx, case, impl, opa):
         ctx.violation(P_MULTI, 'raises-' + impl['multi'][1], 'raises on a well-formed configuration', case=case, impl=impl['multi'])
         return
     v = impl['multi'][1]
-    orc = value_oracle(case, opa)
-    if orc is None:
-        return
-    (want, scale) = orc
     if any(s is None for s in impl['single']):
         ctx.violation(P_MULTI, 'single-raises', 'a single-dataset function raises on its own', case=case, impl=impl['single'])
         return
     add = math.fsum(impl['single'])
+    orc = value_oracle(case, opa)
+    if orc is None:
+        # outside the oracle's domain (a dataset without yield, foreign dataset index): additivity at the
+        # level of the implementation is still required
+        sc = math.fsum(abs(x) for x in impl['single'])
+        if not (math.isnan(v) or math.isinf(sc)) and not close(v, add, 1e-12 * (sc + 1.0)):
+            ctx.violation(P_MULTI, 'not-additive', f'value {v!r} but sum_j llh_j(ns f_j) = {add!r}', case=case, impl=v, model=add,
+                          predicate='multi value = sum_j single_j(ns * f_j)')
+        return
+    (want, scale) = orc
     tol = 1e-12 * (scale + 1.0)
     if not close(v, add, tol):
         ctx.violation(P_MULTI, 'not-additive', f'value {v!r} but sum_j llh_j(ns f_j) = {add!r}', case=case, impl=v, model=add,
@@ -878,7 +938,9 @@ def run_history(case):
         st.apply(step['case'], step.get('perm'))
         st.observe()
     st.apply(strip_hist(case), case.get('perm'))
-    return st.observe()
+    obs = st.observe()
+    obs['notified_ok'] = st.notified_ok
+    return obs
 
 
 def same_obs(a, b):
@@ -905,6 +967,16 @@ def long_lived(ctx, case, opa, rng, lines, checks):
         while p == list(range(K)):
             rng.shuffle(p)
         variants.append(('source-permutation', perm_sources(case, p), p))
+    sizes = [len(W) for W in case['groups']]
+    big = [g for g, n in enumerate(sizes) if n >= 2]
+    if len(sizes) >= 2 and big:
+        # same sources, same number of groups, other group sizes (a source moves to another group)
+        ga = big[0]
+        gb = (ga + 1) % len(sizes)
+        ns_ = list(sizes)
+        ns_[ga] -= 1
+        ns_[gb] += 1
+        variants.append(('regroup', perm_sources(case, list(range(K)), ns_), None))
     rw = strip_hist(case)
     rw['groups'] = [[logu(rng, -2, 2) for _ in W] for W in case['groups']]
     variants.append(('new-weights', rw, None))
@@ -929,6 +1001,10 @@ def long_lived(ctx, case, opa, rng, lines, checks):
         fresh = run_impl(c2)
         ctx.count('long-lived:' + tag)
         rep = dict(c2, history=list(hist), perm=p)
+        if not st.notified_ok:
+            ctx.violation('MultiDatasetTCLLHRatio.change_shg_mgr', 'single-dataset-llhratio-not-notified',
+                          'change_shg_mgr did not reach every single-dataset llh ratio function / TrialDataManager',
+                          case=rep, predicate='change_shg_mgr is forwarded to every llhratio of llhratio_list')
         if not same_obs(obs, fresh):
             ctx.violation(P_CHG, 'long-lived-differs-from-fresh',
                           f'after {tag} + change_shg_mgr the long-lived objects give {obs["weights"]}, '
@@ -1023,8 +1099,8 @@ def probes(ctx, case, case2, opa):
     with np.errstate(all='ignore'), warnings.catch_warnings():
         warnings.simplefilter('ignore')
         try:
-            fit = np.array([float(base.get('ns', 1.0))], dtype=np.float64)
-            fit2 = np.array([float(case2.get('ns', 1.0))], dtype=np.float64)
+            fit = st.fit(float(base.get('ns', 1.0)))
+            fit2 = st2.fit(float(case2.get('ns', 1.0)))
             spr = st.pmm.create_src_params_recarray(fit)
             spr2 = st2.pmm.create_src_params_recarray(fit2)
             # ---- the weight services: repeat, alternate with the other instance, earlier results
@@ -1093,7 +1169,7 @@ def probes(ctx, case, case2, opa):
             f = st.fs.get_weights()[0]
             singles = []
             for n, ll in enumerate(st.lls):
-                fj = np.array([fit[0] * f[n]], dtype=np.float64)
+                fj = st.fit(fit[st.ns_pidx] * f[n])
                 (x1, _) = call(P_SINGLE, st, lambda: ll.evaluate(fj, src_params_recarray=spr),
                                {'fitparam_values': fj, 'src_params_recarray': spr})
                 (x2, _) = call(P_SINGLE, st, lambda: ll.evaluate(fj, src_params_recarray=spr),
@@ -1105,10 +1181,10 @@ def probes(ctx, case, case2, opa):
                          impl=float(x1), model=fresh['single'][n])
                 singles.append(float(x1))
             # ---- interleave: other ns, second derivative, other instance; then the first call again
-            other = np.array([0.37 * fit[0] + 0.003], dtype=np.float64)
+            other = st.fit(0.37 * fit[st.ns_pidx] + 0.003)
             call(P_MULTI, st, lambda: st.m.evaluate(other), {'fitparam_values': other})
             try:
-                st.m.calculate_ns_grad2(ns=other[0], ns_pidx=0, src_params_recarray=spr)
+                st.m.calculate_ns_grad2(ns=other[st.ns_pidx], ns_pidx=st.ns_pidx, src_params_recarray=spr)
             except Exception:   # noqa: BLE001  (not an observable of this property)
                 ctx.count('probes:ns_grad2-raised')
             call(P_MULTI, st2, lambda: st2.m.evaluate(fit2), {'fitparam_values': fit2})
@@ -1193,7 +1269,22 @@ def corpus_cases():
     m2 = {'J': 2, 'groups': [[1.0], [1.0]], 'Y': [[[3.0], [1.0]], [[1.0], [3.0]]], 'ns': 3.998,
           'ds': [{'didx': 0, 'N': 2, 'nsel': 2, 'vals': [[0, 0, 0.0], [1, 0, 0.0], [0, 1, 2.0], [1, 1, 3.0]]},
                  {'didx': 1, 'N': 50, 'nsel': 1, 'vals': [[1, 0, 7.0]]}]}
-    return [t1, t2, m1, m2]
+    # beyond the bounds J <= 4, K <= 5 of the generators: J = 6 datasets, K = 8 sources in 3 groups
+    W8 = [1.0, 2.0, 0.5, 3.0, 1.5, 0.25, 4.0, 0.75]
+    Y68 = [[(1 + ((3 * j + 5 * k) % 7)) * (0.5 if (j + k) % 4 == 0 else 1.0) for k in range(8)] for j in range(6)]
+    Y68[2][7] = 0.0
+    big = {'J': 6, 'groups': [W8[0:3], W8[3:4], W8[4:8]],
+           'Y': [[Y68[j][0:3], Y68[j][3:4], Y68[j][4:8]] for j in range(6)]}
+    v8 = [[k, e, 0.5 + ((2 * k + 3 * e) % 5)] for k in range(8) for e in range(2)]
+    bigm = dict(big, ns=2.5, ds=[{'didx': j, 'N': 9 + j, 'nsel': 2, 'vals': v8} for j in range(6)])
+    # a_jk far below 1e-20 (a threshold on a_k would drop sources): same structure as m1, scaled
+    tiny = {'J': 2, 'groups': [[1e-14, 2e-14, 3e-14]], 'Y': [[[1e-15, 2e-15, 3e-15]], [[2e-15, 4e-15, 6e-15]]],
+            'ns': 3.0, 'ds': [{'didx': 0, 'N': 10, 'nsel': 3, 'vals': vals}, {'didx': 1, 'N': 12, 'nsel': 3, 'vals': vals}]}
+    # a dataset with selected events 0 but events > 0, and three groups
+    m3 = dict(t2, ns=1.5, ds=[{'didx': 0, 'N': 7, 'nsel': 0, 'vals': []},
+                              {'didx': 1, 'N': 9, 'nsel': 2, 'vals': [[0, 0, 2.0], [2, 1, 0.5], [3, 0, 1.0], [4, 1, 3.0]]},
+                              {'didx': 2, 'N': 5, 'nsel': 1, 'vals': [[1, 0, 1.0]]}])
+    return [t1, t2, m1, m2, big, bigm, tiny, m3]
 
 
 # ----------------------------------------------------------------------------- run / replay
@@ -1207,6 +1298,10 @@ def process(ctx, cases, opa, meta_budget, rng, exe):
             continue
         ctx.case(c, nontrivial=in_guard(c))
         impl = run_history(c) if c.get('history') else run_impl(c)
+        if impl.get('notified_ok') is False:
+            ctx.violation('MultiDatasetTCLLHRatio.change_shg_mgr', 'single-dataset-llhratio-not-notified',
+                          'change_shg_mgr did not reach every single-dataset llh ratio function / TrialDataManager',
+                          case=c, predicate='change_shg_mgr is forwarded to every llhratio of llhratio_list')
         queue_model(c, impl, opa, lines, checks)
         predicates_weights(ctx, c, impl)
         if c.get('ds') is not None:
